@@ -1214,6 +1214,11 @@ class RenameFrame(Elemwise):
     def operation(df, columns):
         return df.rename(columns=columns)
 
+    @property
+    def _projection_columns(self):
+        # The columns we need from our frame carry the names before renaming
+        return self.frame.columns
+
     def _simplify_up(self, parent, dependents):
         if isinstance(parent, Projection) and isinstance(
             self.operand("columns"), Mapping
@@ -2251,6 +2256,11 @@ class AddSuffixSeries(AddPrefixSeries):
 class AddPrefix(Elemwise):
     _parameters = ["frame", "prefix"]
     operation = M.add_prefix
+
+    @property
+    def _projection_columns(self):
+        # The columns we need from our frame carry the names before renaming
+        return self.frame.columns
 
     def _convert_columns(self, columns):
         len_prefix = len(self.prefix)
